@@ -313,6 +313,28 @@ func corrC05(outDir string, seed uint64, tier string, replay string) *report {
 		t := shippedTypes()[r.intn(len(shippedTypes()))]
 		pan, hung = guarded(func() { crypthash.Unmarshal(str, reflect.New(t).Interface()) })
 		bad("hash.Unmarshal into "+t.String(), str, pan, hung)
+		// the codec on generated layouts (no embedded pointers: that shape is the known finding D10): strings written
+		// from the layout, edited, and random ones; values of every kind
+		if i%3 == 0 {
+			var gt *gType
+			if i%2 == 0 {
+				gt = genClass(r)
+			} else {
+				gt = genWild(r)
+			}
+			in := genString(r, gt)
+			if i%4 == 1 {
+				in = mutate(r, in)
+			} else if i%4 == 3 {
+				in = str
+			}
+			pan, hung = guarded(func() { crypthash.Unmarshal(in, reflect.New(gt.t).Interface()) })
+			bad("hash.Unmarshal into "+gt.t.String(), in, pan, hung)
+			v := genValue(r, gt, i%5 == 0)
+			pan, hung = guarded(func() { crypthash.Marshal(v.Interface()) })
+			bad("hash.Marshal of "+gt.t.String(), fmt.Sprintf("%+v", v.Elem().Interface()), pan, hung)
+			rep.bump("generated_layout_calls")
+		}
 		if i%4 == 0 {
 			p := reflect.New(t)
 			fillAny(r, p.Elem(), true)
